@@ -2,6 +2,7 @@
 package c05
 
 import (
+	r "github.com/DemoHn/Zn/pkg/runtime"
 	"strings"
 
 	zerr "github.com/DemoHn/Zn/pkg/error"
@@ -93,6 +94,56 @@ func H_E1_SymbolicSource() {
 		zv.Assume(pureInAlphabet(src[k]))
 	}
 	checkFrontEnd(src, "E1")
+}
+
+// H_E3_InputText: input-variable text and input expressions of up to N
+// symbolic characters over the alphabet: evaluation terminates with a value map
+// or an error, never a Go panic and never a nil value.
+func H_E3_InputText() {
+	N := 2
+	if zv.Tier() == 1 {
+		N = 3
+	}
+	n := zv.Choose(N) + 1
+	src := make([]rune, n)
+	for k := range src {
+		src[k] = zv.Rune("c")
+		zv.Assume(pureInAlphabet(src[k]))
+	}
+	pk := zv.Choose(3)
+	if zv.Tier() == 0 && pk != 1 && n > 1 {
+		return // quick tier: full length only behind "X = "
+	}
+	prefix := []string{"", "X = ", "X = 1；Y = "}[pk]
+	text := prefix + string(src)
+	var p interface{}
+	var m r.ElementMap
+	var err error
+	func() {
+		defer func() { p = recover() }()
+		m, err = exec.ExecVarInputText(text)
+	}()
+	zv.Assert(p == nil, "E3: input-variable text does not panic")
+	if err == nil {
+		zv.Reach("varinput-accepted")
+		for _, v := range m {
+			zv.Assert(v != nil, "E3: input-variable text yields no nil value")
+		}
+	} else {
+		zv.Reach("varinput-rejected")
+	}
+	func() {
+		defer func() { p = recover() }()
+		m, err = exec.ExecExpressionInputText(map[string]string{"X": string(src)})
+	}()
+	zv.Assert(p == nil, "E3: an input expression does not panic")
+	if err == nil {
+		zv.Reach("expression-accepted")
+		v, ok := m["X"]
+		zv.Assert(ok && v != nil, "E3: an accepted input expression yields a value")
+	} else {
+		zv.Reach("expression-rejected")
+	}
 }
 
 var anyRuneContexts = [][2]string{{"", ""}, {"令X = ", ""}, {"令X", " = 1"}, {"`", "`"}, {"“", "”"}, {"注：", ""}, {"（显示：", "）"}}
